@@ -22,7 +22,7 @@ LIBNINJA = ['build_log', 'build', 'clean', 'clparser', 'dyndep', 'dyndep_parser'
 PIPELINE = ['build_log', 'build', 'clean', 'clparser', 'dyndep', 'dyndep_parser', 'debug_flags', 'deps_log', 'edit_distance',
             'eval_env', 'graph', 'manifest_parser', 'parser', 'state', 'string_piece_util', 'util', 'version',
             'depfile_parser', 'lexer', 'jobserver', 'elide_middle', 'json', 'line_printer', 'status_printer', 'missing_deps',
-            'graphviz']
+            'graphviz', 'disk_interface']
 
 CXXFLAGS = ['-std=c++17', '-O1', '-DNDEBUG', '-DUSE_PPOLL=1', '-fno-exceptions', '-fno-rtti', '-fno-vectorize',
             '-fno-slp-vectorize', '-fno-unroll-loops', '-fno-builtin-memchr', '-Wno-everything']
